@@ -186,12 +186,20 @@ pub fn plan_c01(tier: &str, seed: u64, kem_pairs: usize) -> Plan {
             lines.push(format!("usk_rights M0 t:{}", h(p)));
             lines.push(format!("enc_rights M0 t:{}", h(p)));
         }
-        // KEM layer on this structure: sampled (user, encryption) pairs
+        // KEM layer on this structure: sampled user policies (biased to several clauses) against
+        // *every* single-clause encryption policy and '*', plus sampled multi-clause encryption policies
         let per = (kem_pairs / shapes.len()).max(2);
-        for _ in 0..per {
-            let u = rng.pick(&pols).clone();
-            let e = rng.pick(&pols).clone();
-            lines.push(format!("covers M0 K1 t:{} t:{}", h(&u), h(&e)));
+        let singles: Vec<String> = std::iter::once("*".to_string()).chain(clauses.iter().map(|c| c.join(" && "))).collect();
+        let n_users = (per / singles.len()).max(2);
+        for k in 0..n_users {
+            let u = if k % 3 == 0 || two.is_empty() { rng.pick(&pols).clone() } else { rng.pick(&two).clone() };
+            for e in &singles {
+                lines.push(format!("covers M0 K1 t:{} t:{}", h(&u), h(e)));
+            }
+            if !two.is_empty() {
+                let e = rng.pick(&two).clone();
+                lines.push(format!("covers M0 K1 t:{} t:{}", h(&u), h(&e)));
+            }
         }
         cases.push(Case { expect: vec![], name: format!("c01-shape{si}"), lines });
     }
@@ -570,6 +578,8 @@ pub fn plan_c08(tier: &str, seed: u64) -> Plan {
                 format!("swap_chains {a} {b}"), format!("swap_chains 0 1"), format!("drop_chain {a}"), format!("drop_chain 0"),
                 format!("dup_chain {a}"), format!("dup_chain 0"), format!("rename_right {a} 00"), format!("rename_right 0 7f"),
                 format!("rename_right {a} "), format!("move_secret {a} {b}"), format!("move_secret 0 1"), format!("move_secret 1 0"),
+                format!("split_chain {a}"), format!("split_chain 0"), format!("split_chain 1"), format!("split_chain 2"),
+                format!("join_chains {a}"), format!("join_chains 0"),
                 format!("swap_secrets {a}"), format!("swap_secrets 0"), format!("drop_secret {a}"), format!("drop_secret 0"),
                 format!("shift_bytes {a} {}", 1 + rng.below(31)), format!("shift_bytes 0 1"),
                 format!("merge_into_name {a}"), format!("merge_into_name 0"), format!("merge_into_name 1"), "merge_broadcast".into(),
@@ -590,6 +600,6 @@ pub fn plan_c08(tier: &str, seed: u64) -> Plan {
         per_line: true,
         cases,
         exhaustive: false,
-        rule: format!("{n_cases} random small histories (keys for 5 policies incl. '*', 0..3 rekeys each followed by a refresh with keep: single and multiple rights, 1..4 revisions, classic and hybridised secrets); on every key version 35 tampering operators on the serialised form (reorder / drop / duplicate / rename rights, move / swap / drop secrets, shift bytes between a right's name and its secret, merge a chain into a name, merge the broadcast chain into its neighbour, flavour change with re-chunking, strip / flip / splice signature, flip / swap / splice id, splice a chain of another issued key, key of another authority) plus the untouched control; the real refresh_usk (both flags, on copies) is compared with the Lean byte-level MAC model and with the specification (only the issued key is accepted; nothing modified on rejection)"),
+        rule: format!("{n_cases} random small histories (keys for 5 policies incl. '*', 0..3 rekeys each followed by a refresh with keep: single and multiple rights, 1..4 revisions, classic and hybridised secrets); on every key version 41 tampering operators on the serialised form (reorder / drop / duplicate / rename rights, move / swap / drop secrets, shift bytes between a right's name and its secret, merge a chain into a name, merge the broadcast chain into its neighbour, flavour change with re-chunking, strip / flip / splice signature, flip / swap / splice id, splice a chain of another issued key, key of another authority) plus the untouched control; the real refresh_usk (both flags, on copies) is compared with the Lean byte-level MAC model and with the specification (only the issued key is accepted; nothing modified on rejection)"),
     }
 }
